@@ -589,15 +589,15 @@ def tab_snipkeys(p, res):
                 seen[name] = key
                 seen_ci[name.lower()] = name
         res.stats[modq] = len(seen)
-    # parse_snippets splits on '|' and keeps the value
-    from ..pattern import find_stmt
+    # parse_snippets registers every alternative of a `a|b|c` key; a later table entry replaces an earlier one
+    from .tablecheck import check_table
     f = p.func('snippets.parse_snippets')
-    hits = find_stmt("for $n in $k.split('|'):\n    $r[$n] = $s[$k]", f.node)
-    if len(hits) == 1:
-        res.ok('parse_snippets: every name of a multi-key gets the value of that key')
+    from ..pattern import find_expr
+    comp = find_expr("{$n: $s[$k] for $k in $s.keys() for $n in $k.split('|')}", f.node) or find_expr("{$n: $s[$k] for $k in $s for $n in $k.split('|')}", f.node)
+    if comp and len([n for n in f.body_nodes() if isinstance(n, ast.Return)]) == 1:
+        res.ok('parse_snippets: every name of a multi-key gets the value of that key (comprehension)')
     else:
-        res.bad(F('TAB-SNIPKEYS', f.module, f.short, f.node, "for name in k.split('|'): result[name] = snippets[k]",
-                  'every alternative of a `a|b|c` key must be registered, and a later table entry replaces an earlier one (plain assignment, no setdefault / first-last shortcut)'))
+        check_table(p, res, 'TAB-SNIPKEYS', 'snippets.parse_snippets', 'every alternative of a `a|b|c` key must be registered, and a later table entry replaces an earlier one (plain assignment)')
     # the four derived tables come from parse_snippets applied to exactly one raw table each
     sm = p.module('snippets')
     for name, raw in (('markup_snippets', 'raw_markup_snippets'), ('stylesheet_snippets', 'raw_stylesheet_snippets'), ('xsl_snippets', 'raw_xsl_snippets'), ('pug_snippets', 'raw_pug_snippets')):
